@@ -242,7 +242,7 @@ func TestVerifC06Flow(t *testing.T) {
 		case 2: // retransmission of the first datagram at the end
 			c06AppendDatagram(qc, qc.datagrams[0], qc.oracle, 0)
 			kind = "retransmit"
-		case 4: // a datagram that is not a QUIC Initial right after the first one
+		case 4, 5: // a datagram that is not a QUIC Initial right after the first one
 			if len(qc.datagrams) >= 2 {
 				junk := append([]byte{0x40 | byte(g.r.Intn(64))}, g.bytes(g.r.Range(20, 60))...)
 				qc.datagrams = append(qc.datagrams[:1:1], append([][]byte{junk}, qc.datagrams[1:]...)...)
